@@ -384,6 +384,22 @@ def m4_absorb_order(chk, F, T, tag):
     chk.count("mutable_splits", n)
 
 
+def is_detached_spawn(t):
+    cp = core.strip_generics(core.callee_path(t) or "")
+    # canonical paths: std::thread::functions::spawn, std::thread::builder::Builder::spawn (scoped spawns live in std::thread::scoped / crossbeam)
+    return cp.startswith("std::thread::") and cp.rsplit("::", 1)[-1] in ("spawn", "spawn_unchecked") and "scoped" not in cp and "Scope" not in cp
+
+
+def canary(chk):
+    """The detached-thread rule expects zero matches in /repo: it must still fire on the canary fixture."""
+    import os
+    from . import extract
+    fx = os.path.join(extract.VERIF, "fixtures", "canary")
+    Fc = core.Facts(extract.load("canary", {"features": [], "env": {}}, repo=fx, crate="canary"), "canary")
+    hits = [p for p, f in Fc.fns.items() for b, t in f.calls() if is_detached_spawn(t)]
+    chk.ob("canary.M5", "fixtures/canary", len(hits) >= 1, "the detached-thread rule did not fire on the canary fixture")
+
+
 def m5_threads(chk, F, tree, tag):
     spawns = []
     drains = 0
@@ -396,7 +412,7 @@ def m5_threads(chk, F, tree, tag):
             c = core.callee_of(t)
             cp = core.strip_generics(core.callee_path(t) or "")
             full = (c.get("resolved") or c)["path"] if c else ""
-            if cp in ("std::thread::spawn", "std::thread::Builder::spawn") or cp.endswith("thread::spawn"):
+            if is_detached_spawn(t):
                 spawns.append((p, f.loc(b)))
             if cp.endswith("::scope") and ("crossbeam" in full or "thread" in full):
                 scope_calls.append(b)
@@ -493,6 +509,7 @@ def run(chk, ctx):
     configs = ["fast_verify"] if ctx.tier == "quick" else ["fast_verify", "fast_verify_verbose"]
     for name in configs:
         run_config(chk, ctx, name)
+    canary(chk)
     chk.floor("functions_receiving_the_message", 5)
     chk.floor("mutable_splits", 1)
     chk.floor("message_write_sites", 1)
